@@ -402,6 +402,9 @@ func goVerdict(rec *Record) bool {
 	}
 	switch rec.Outcome {
 	case "ok":
+		if g.ambiguous(rec.RootVals) {
+			return true // outside the property (CopierRef!Ambiguous)
+		}
 	case "error":
 		return unsupportedExpected(g, rec)
 	default:
